@@ -4,8 +4,7 @@
   quantifies over all interleavings of main-thread, worker and environment transitions, including spurious wake-ups and
   expiry of the timed wait). Proofs are in Lemmas/MtDec*.lean.
 -/
-import XzVerif.Lemmas.MtDecProgress3
-import XzVerif.Lemmas.MtDecMem
+import XzVerif.Lemmas.MtDecTerm5
 import XzVerif.Gen.C07
 
 namespace XzVerif.C07
@@ -146,7 +145,7 @@ def AllBlocked (s : State) : Prop :=
 theorem mtdec_no_deadlock (cfg : Cfg) (blocks : List Block) (hwf : WFInput blocks) (s : State)
     (hr : Reachable cfg blocks s) (hne : s.pc ≠ .ended) :
     ∃ l s', step s l = some s' ∧ l.isExpiry = false ∧ (s.pc ≠ .idle → l.isApp = false) := by
-  obtain ⟨l, s', hs, he⟩ := progress hwf hr hne
+  obtain ⟨l, s', hs, he, _⟩ := progress hwf hr hne
   refine ⟨l, s', hs, he, ?_⟩
   intro hi
   cases l <;> first | rfl | (exfalso; simp only [step] at hs; revert hs; simp [hi])
@@ -166,7 +165,7 @@ theorem mtdec_not_all_blocked (cfg : Cfg) (blocks : List Block) (hwf : WFInput b
 theorem mtdec_worker_progress (cfg : Cfg) (blocks : List Block) (hwf : WFInput blocks) (s : State)
     (hr : Reachable cfg blocks s) (i : Nat) (hi : i < s.workers.length) (hx : (getW s i).pc ≠ .exited)
     (hw : ¬((getW s i).pc = .wait ∧ (getW s i).woken = false)) :
-    ∃ l s', step s l = some s' ∧ l.isExpiry = false :=
+    ∃ l s', step s l = some s' ∧ l.isExpiry = false ∧ Progressive s l :=
   worker_can_step (blk_wf_of_reachable hwf hr) (PrivInv.reachable hwf hr) i hi hx hw
 
 /-- What a blocked main thread sees (the content of `mtdec_no_lost_wakeup`, repackaged; kept because the trace inclusion
@@ -218,6 +217,113 @@ theorem mtdec_mem_bound (cfg : Cfg) (blocks : List Block) (s : State) (hr : Reac
   unfold MemInv at h
   refine ⟨h, ?_⟩
   omega
+
+/-- What SEQ_BLOCK_INIT guarantees about the input, relative to the configuration: an item is sent to the threaded path only
+    if mem_next_block = mem_next_filters + mem_next_in + outbuf memory fits memlimit_threading (otherwise it takes the direct
+    path). In the model the path is an input (`Block.kind`); this is the condition under which that input is one the C code can
+    produce. -/
+def FitsInput (cfg : Cfg) (blocks : List Block) : Prop := ∀ b ∈ blocks, b.FitsMem cfg
+
+/-- **Exact memory accounting.** While no fatal value is on its way out, coder->mem_in_use is exactly the sum of
+    mem_next_in + mem_next_filters over the workers that own an outbuf or have failed (failed workers keep their memory), plus
+    the amount of the Block being set up between the counter update and the outbuf assignment; every initialised worker is
+    busy, failed, in the free list, or the one being set up; and a failed worker implies a recorded thread error. -/
+theorem mtdec_mem_exact (cfg : Cfg) (blocks : List Block) (hwf : WFInput blocks) (s : State)
+    (hr : Reachable cfg blocks s) (hx : exitCode s = none) :
+    s.memInUse = memSum s + pendThr s ∧
+    (∀ i, i < s.workers.length → (getW s i).hasOut = true ∨ (getW s i).failed = true ∨ i ∈ s.threadsFree ∨
+      (s.pc = .init3 ∧ s.thr = some i)) :=
+  let h := AcctInv.reachable hwf hr hx
+  ⟨h.acct, h.cover⟩
+
+/-- **The invariant stated in read_output_and_wait(): "if the output queue is empty, the next Block can be started".** In
+    SEQ_BLOCK_THR_INIT (before the counters are updated for the new Block), with at least one thread configured and input that
+    SEQ_BLOCK_INIT can have sent to the threaded path: if the output queue is empty then mem_in_use is 0 and the can-start test
+    (memory, queue slots, a free or new thread) succeeds. -/
+theorem mtdec_can_start_when_empty (cfg : Cfg) (blocks : List Block) (hwf : WFInput blocks) (hfit : FitsInput cfg blocks)
+    (hT : 0 < cfg.threadsMax) (s : State) (hr : Reachable cfg blocks s) (hst : Steady s) (hseq : s.seq = .thrInit)
+    (hq : s.queue = []) (hp2 : s.pc ≠ .init2) (hp3 : s.pc ≠ .init3) (hp4 : s.pc ≠ .init4) (hp5 : s.pc ≠ .init5) :
+    canStartNow s = true ∧ s.memInUse = 0 :=
+  canStart_of_empty hwf hfit hT hr hst hseq hq hp2 hp3 hp4 hp5
+
+/-- Consequently read_output_and_wait never comes back to SEQ_BLOCK_THR_INIT saying "cannot start yet" with an empty queue:
+    stream_decode_mt returns LZMA_OK from that state only while there is output to read or a worker to wait for, so a threaded
+    Block that could never start does not exist (the spin the second audit pass pointed out is unreachable). -/
+theorem mtdec_no_start_only_nonempty (cfg : Cfg) (blocks : List Block) (hwf : WFInput blocks) (hfit : FitsInput cfg blocks)
+    (hT : 0 < cfg.threadsMax) (s : State) (hr : Reachable cfg blocks s)
+    (hp : s.pc = .rowDone .canStart OK false ∨ s.pc = .rowOk .canStart false) : s.queue ≠ [] :=
+  noStart_nonempty hwf hfit hT hr hp
+
+/-- **Termination measure.** `mu` strictly decreases on every transition of a reachable state that is not taken by the
+    application (lzma_code / lzma_end being called), is not a wake-up without signal or a timer expiry, and — if it is a Block
+    decoder call — makes progress (`Progressive`: a verdict, input consumed, output produced, or the call was given no input).
+    Wake-ups without signal and timer expiries never raise it; an application call raises it by at most 33 + 4·threads. -/
+theorem mtdec_measure (cfg : Cfg) (blocks : List Block) (hwf : WFInput blocks) (s s' : State) (l : Label)
+    (hr : Reachable cfg blocks s) (hs : step s l = some s') :
+    (l.isExpiry = false → l.isApp = false → Progressive s l → mu s' < mu s) ∧
+    (l.isExpiry = true → mu s' ≤ mu s) ∧
+    (l.isApp = true → mu s' ≤ mu s + (33 + 4 * cfg.threadsMax)) := by
+  refine ⟨fun h1 h2 h3 => mu_step hwf hr hs h1 h2 h3, fun h => mu_expiry_le hs h, fun h => ?_⟩
+  have := mu_app_le hs h
+  rw [step_cfg hwf hr] at this
+  exact this
+
+/-- **Bounded runs (termination of the scheduler model).** For every run of the model from the initial state — every
+    schedule, including any number of spurious wake-ups and timer expiries — in which the Block decoder calls make progress:
+    the number of internal transitions (everything except application calls and wake-ups without signal / expiries) is at most
+      Σ_items (8·(48 + 4·threads) + 64 + 8·(compressed size + uncompressed size)) + 4·(48 + 4·threads)
+        + (33 + 4·threads) · (number of lzma_code / lzma_end calls).
+    So no schedule lets the library run forever inside a call, and between two application calls only boundedly many
+    transitions happen. -/
+theorem mtdec_steps_bounded (cfg : Cfg) (blocks : List Block) (hwf : WFInput blocks) (ls : List Label) (s : State)
+    (hrun : run (init cfg blocks) ls = some s) (hprog : ProgRun (init cfg blocks) ls) :
+    (ls.filter Label.internal).length ≤
+      (blocks.map fun b => 8 * (48 + 4 * cfg.threadsMax) + 64 + 8 * (b.inSize + b.data.length)).sum
+        + 4 * (48 + 4 * cfg.threadsMax) + (33 + 4 * cfg.threadsMax) * (ls.filter Label.isApp).length := by
+  have h := run_bound hwf ls _ s Reachable.init hrun hprog
+  rw [mu_init] at h
+  have e : muInit cfg blocks =
+      (blocks.map fun b => 8 * (48 + 4 * cfg.threadsMax) + 64 + 8 * (b.inSize + b.data.length)).sum + 4 * (48 + 4 * cfg.threadsMax) := by
+    unfold muInit MS
+    congr 2
+  omega
+
+/-- **Every call returns.** A reachable state in which no progressive internal transition is enabled has the main thread
+    back in the application (or the handle freed). With `mtdec_measure` (every such transition lowers `mu`): from any reachable
+    state every sequence of internal transitions has length at most `mu s`, and when it cannot be extended lzma_code /
+    lzma_end has returned — under every schedule, with any timeout setting, for valid, corrupt and truncated input alike. -/
+theorem mtdec_call_returns (cfg : Cfg) (blocks : List Block) (hwf : WFInput blocks) (s : State) (hr : Reachable cfg blocks s) :
+    (∀ ls s', run s ls = some s' → ProgRun s ls → (∀ l ∈ ls, l.internal = true) → ls.length ≤ mu s) ∧
+    ((∀ l s', step s l = some s' → l.internal = true → ¬ Progressive s l) → s.pc = .idle ∨ s.pc = .ended) := by
+  refine ⟨?_, stuck_is_idle hwf hr⟩
+  intro ls s' hrun hp hall
+  have h := run_bound hwf ls s s' hr hrun hp
+  have e1 : ls.filter Label.internal = ls := List.filter_eq_self.mpr hall
+  have e2 : ls.filter Label.isApp = [] := by
+    apply List.filter_eq_nil_iff.mpr
+    intro l hl
+    have := hall l hl
+    simp only [Label.internal, Bool.and_eq_true, Bool.not_eq_true'] at this
+    simp [this.1]
+  rw [e1, e2] at h
+  simp at h
+  omega
+
+/-- **Truncated input (partial).** What the model proves about input that ends in the middle of a Block: every call returns
+    after boundedly many transitions under every schedule (`mtdec_call_returns`, no hang whatever the workers are doing), the
+    main thread does not wait while the last worker has consumed and published everything it was given
+    (`mtdec_no_wait_when_stalled`), and what has been delivered is a prefix of the single-threaded output
+    (`mtdec_output_prefix`). NOT proved: that the sequence of return values is finitely many LZMA_OK followed by LZMA_BUF_ERROR —
+    the no-progress counter lives in lzma_code's wrapper (C11's model), which this model does not contain; the direct oracle
+    checks that clause on every truncated file, also with the pause/poll slicing. -/
+theorem mtdec_truncated_input_partial (cfg : Cfg) (blocks : List Block) (hwf : WFInput blocks) (s : State)
+    (hr : Reachable cfg blocks s) :
+    ((∀ l s', step s l = some s' → l.internal = true → ¬ Progressive s l) → s.pc = .idle ∨ s.pc = .ended) ∧
+    (∀ k w, s.pc = .rowWait k w → s.mwoken = false → stalled s = false) ∧
+    s.delivered <+: stOutput blocks :=
+  ⟨(mtdec_call_returns cfg blocks hwf s hr).2,
+   fun k w hp hm => ((mtdec_no_lost_wakeup cfg blocks hwf s hr).2 k w hp hm).2.2.1,
+   mtdec_output_prefix cfg blocks hwf s hr⟩
 
 /-- **The main thread never waits while the last worker is stalled.** `stalled` is the model's rendering of the rule
     "thr->in_filled == decoder_in_pos published by the worker and no output to read": in that situation
@@ -288,6 +394,19 @@ example : (run (init exCfg exBlocks) exScheduleEnd).map (fun s => (s.returned, s
   decide
 
 example : stRun exBlocks = ([1, 2, 3, 4, 5], END) := by decide
+
+/-- The example input satisfies SEQ_BLOCK_INIT's guarantee for `exCfg`, every Block decoder call of the example schedule makes
+    progress, and the bound of `mtdec_steps_bounded` for it is 1896 + 41 per application call (the schedule has 1 call and 49
+    internal transitions). -/
+example : FitsInput exCfg exBlocks := by
+  intro b hb
+  simp only [exBlocks, List.mem_cons, List.mem_nil_iff, or_false] at hb
+  rcases hb with rfl | rfl | rfl <;> simp [Block.FitsMem, exCfg]
+
+example : ProgRun (init exCfg exBlocks) exScheduleEnd := progRunB_sound _ _ (by decide)
+
+example : muInit exCfg exBlocks = 1896 ∧ (exScheduleEnd.filter Label.internal).length = 49 ∧
+    (exScheduleEnd.filter Label.isApp).length = 1 := by decide
 
 /-- Error path: the second Block fails after all of its output; under a schedule in which both workers finish before the main
     thread looks, the model returns LZMA_DATA_ERROR after delivering all five bytes, as the single-threaded decoder does. -/
